@@ -111,10 +111,18 @@ def mark_build(tree, spec):
     if spec.get("styles") is None:
         cells[2][1] = [100, [[None, 1]]]
     langs = cells[1][1][1]
+    built = []          # per Caption object built so far (iso_build.build_set order): was its style argument omitted?
     for lg_cell, lg_spec in zip(langs, spec["langs"]):
         caps = [c for c in lg_cell[1][1] if c[0] is None]
         for cap_cell, cap_spec in zip(caps, lg_spec["caps"]):
-            if cap_spec.get("style") is None:
+            if cap_spec.get("same_as") is not None and built:
+                omitted = built[cap_spec["same_as"] % len(built)]
+            else:
+                omitted = cap_spec.get("style") is None
+                if built and cap_spec.get("style_of") is not None:
+                    omitted = built[cap_spec["style_of"] % len(built)]
+                built.append(omitted)
+            if omitted:
                 for c in cap_cell[1][1]:
                     if c[0] == 4:
                         c[1] = [100, [[None, 0]]]
@@ -194,6 +202,8 @@ def wire_edit(e, tree_before):
         return [6, e[1], e[2], e[3], 4, layout_tree("align")]
     if k == "del_cap":
         return [7, e[1], e[2]]
+    if k == "node_dict":
+        return [8, e[1], e[2], e[3], "s:" + e[4], S.tree(e[5])]
     if k == "poke":
         return [1, "s:__no_such_selector__", "s:x", "s:x"]       # unknown to the model: a no-op edit
     raise ValueError(k)
@@ -260,12 +270,24 @@ def token_domain(tree, kind="dfxp"):
     return True
 
 
-def compare(history, obs, steps, pristine):
+def extreme_times(tree):
+    """the set has a caption time no writer can print (inf, nan, beyond timedelta): every writer raises on it; which
+    exception class is not modelled"""
+    if tree is None:
+        return False
+    t = json.dumps(tree)
+    return '"f:inf"' in t or '"f:nan"' in t or '000000000000000000000' in t
+
+
+def compare(history, obs, steps, pristine, prop="C10"):
     """model prediction vs observation on the real heap, op by op -> list of disagreement dicts"""
     out = []
     if steps is None:
-        return [{"i": -1, "what": "model rejected the history encoding"}]
+        return [{"i": -1, "what": "model rejected the history encoding", "detail": None}]
     trees = []
+    desynced = set()      # sets whose REAL object graph is a DAG and that were edited in place: the model builds trees,
+                          # so its snapshot of such a set is no longer comparable (counted); the property oracle, which
+                          # works on the real snapshots, is not affected
     for i, (op, o, (m, mtrees)) in enumerate(zip(history, obs, steps)):
         k = op["op"]
         if k in ("build", "read"):
@@ -290,13 +312,29 @@ def compare(history, obs, steps, pristine):
             dis("number of sets", model=len(mtrees), impl=len(real_digests))
         else:
             for j, (mt, rd) in enumerate(zip(mtrees, real_digests)):
+                if j in desynced:
+                    dis("set %d is a DAG edited in place: tree-shaped model not compared" % j, detail="model-tree-vs-dag")
+                    continue
                 md = None if mt is None else S.digest(mt)
                 if md != rd:
+                    prev = obs[i - 1].get("alias") if i > 0 else None
+                    if k == "edit" and j == op["set"] and prev and j < len(prev) and prev[j]:
+                        # the edit went through an object that the real set reaches by two paths (e.g. the dict shared
+                        # by a span's start and end node); the model's tree has two objects there
+                        desynced.add(j)
+                        dis("set %d is a DAG edited in place: tree-shaped model not compared" % j, detail="model-tree-vs-dag")
+                        continue
                     dis("snapshot of set %d after the op" % j, set=j)
                     break
         if k in ("build", "read"):
             if o.get("tree") is None:
                 continue
+            if prop != "C10":
+                continue          # aliasing between caption sets / with process state is C10's clause, not C09's
+            m = dict(m)
+            m["share"] = {j: [x for x in ks if x != 6] for j, ks in m["share"].items()}     # geometry values: not mutable
+            m["share"] = {j: ks for j, ks in m["share"].items() if ks}
+            m["glob"] = [x for x in m["glob"] if x != 6]
             if sorted(m["share"]) != sorted(o["share"]):
                 dis("which older sets share mutable objects with the new one", model=m["share"], impl=o["share"])
             else:
@@ -315,11 +353,13 @@ def compare(history, obs, steps, pristine):
         elif k == "write":
             kind = op["kind"]
             if o["rebound_in"]:
-                dis("the writer assigned to slots of its INPUT (identity level)", impl=o["rebound_in"])
+                dis("the writer rebound slots of its INPUT (identity level; the snapshots decide whether anything changed)",
+                    detail="input-slot-rebound", impl=o["rebound_in"])
             if m["changed_below"]:
                 dis("model: a write changed a pre-existing location", model=m["changed_below"])
             real_err = o["err"] or 0
-            if kind in MODELLED_ERR and m["err"] != real_err:
+            tree_w = trees[op["set"]] if op["set"] < len(trees) else None
+            if kind in MODELLED_ERR and m["err"] != real_err and not extreme_times(tree_w):
                 dis("error exit", detail="error-exit", model=m["err"], impl=real_err, exc=o.get("exc"))
             if kind in COPY_MATTERS:
                 if m["copies"] != o["n_copies"]:
@@ -333,7 +373,8 @@ def compare(history, obs, steps, pristine):
             if o["winst_alias"]:
                 cont = [c for c in o["winst_alias"] if c not in GEOMETRY and c != "Layout"]
                 if cont:
-                    dis("the writer object keeps references to container objects of its input", impl=cont)
+                    dis("the writer object keeps references to container objects of its input",
+                        detail="writer-keeps-reference", impl=cont)
             if kind in SPAN_WRITERS and real_err == 0 and m["err"] == 0:
                 tree_in = trees[op["set"]]
                 if tree_in is not None and token_domain(tree_in, kind):
@@ -350,7 +391,9 @@ def compare(history, obs, steps, pristine):
 
 
 # ---- property oracle ---------------------------------------------------------------------------------------------------
-def oracle_records(history, obs, pristine):
+def oracle_records(history, obs, pristine, fold_alias=False):
+    """fold_alias: the digest of a set also covers its internal sharing structure (C09: 'the same set' for the
+    determinism clause is the same graph up to identity, not merely the same tree)"""
     recs = []
     idx = []            # history index of each record
     nset = 0
@@ -362,6 +405,8 @@ def oracle_records(history, obs, pristine):
         if o.get("skipped"):
             continue
         digs = [hexz(d) for d in o["sets"]]
+        if fold_alias and o.get("alias"):
+            digs = [d if not a else zdigest("%s/%s" % (d, a)) for d, a in zip(digs, o["alias"])]
         if k == "build":
             recs.append([0, this, 0, 0, 0, digs])
         elif k == "read":
@@ -369,7 +414,7 @@ def oracle_records(history, obs, pristine):
             recs.append([1, this, zdigest(read_key(op)), 0, hexz(pr.get("digest")) if pr.get("err") is None else -1, digs])
         elif k == "write":
             key = zdigest(json.dumps([op["kind"], op.get("wopts", {}), op.get("kw", {})], sort_keys=True))
-            out = hexz(o["out_sha"]) if o.get("out_sha") else zdigest("ERR:%s" % o["err"])
+            out = hexz(o["out_sha"]) if o.get("out_sha") else zdigest("ERR:%s" % (o.get("exc_class") or o["err"]))
             recs.append([2, op["set"], key, out, 0, digs])
         else:
             recs.append([3, op["set"], 0, 0, 0, digs])
@@ -388,13 +433,13 @@ def concat_records(rec_a, rec_b):
     return out
 
 
-def evaluate_pairs(pairs, code):
+def evaluate_pairs(pairs, code, fold_alias=True):
     """pairs: [(history A, obs A, history B, obs B)] -> per pair the oracle verdict on A ; B (indices >= len(A records)
     refer to B)"""
     reqs, lens, idxs = [], [], []
     for (ha, oa, hb, ob) in pairs:
-        ra, ia = oracle_records(ha, oa, {})
-        rb, ib = oracle_records(hb, ob, {})
+        ra, ia = oracle_records(ha, oa, {}, fold_alias)
+        rb, ib = oracle_records(hb, ob, {}, fold_alias)
         reqs.append((code, concat_records(ra, rb)))
         lens.append(len(ra))
         idxs.append(ib)
@@ -405,12 +450,12 @@ def evaluate_pairs(pairs, code):
     return out
 
 
-def evaluate(histories, results, pristine, code):
+def evaluate(histories, results, pristine, code, fold_alias=False):
     """property oracle (Coq) on every history -> per history list of (history op index, clause)"""
     reqs = []
     idxs = []
     for h, obs in zip(histories, results):
-        recs, idx = oracle_records(h, obs, pristine)
+        recs, idx = oracle_records(h, obs, pristine, fold_alias)
         reqs.append((code, recs))
         idxs.append(idx)
     resp = oracle_batch(reqs, chunk=500)
@@ -423,7 +468,7 @@ def evaluate(histories, results, pristine, code):
         for i, (op, o) in enumerate(zip(h, obs)):
             if op["op"] == "read" and not o.get("skipped"):
                 pr = pristine.get(read_key(op), {})
-                if (o.get("err") or None) != (pr.get("err") or None) and (i, 4) not in v:
+                if (o.get("exc_class") or None) != (pr.get("exc_class") or None) and (i, 4) not in v:
                     v.append((i, 4))
         out.append(v)
     return out
@@ -452,11 +497,11 @@ def cross_seed_diffs(histories, base, other, seed, want=("write", "read", "build
             if c09:
                 if x.get("sets") != y.get("sets"):
                     break          # the inputs already differ between the processes: a matter of reading (C10)
-                if x.get("err") != y.get("err") or x.get("out_sha") != y.get("out_sha"):
+                if x.get("exc_class") != y.get("exc_class") or x.get("out_sha") != y.get("out_sha"):
                     out.append({"history": hi, "i": i, "op": op["op"], "seed": seed,
                                 "what": "out" if x.get("out_sha") != y.get("out_sha") else "err"})
                     break
-            elif x.get("sets") != y.get("sets") or (op["op"] in ("read", "build") and x.get("err") != y.get("err")):
+            elif x.get("sets") != y.get("sets") or (op["op"] in ("read", "build") and x.get("exc_class") != y.get("exc_class")):
                 out.append({"history": hi, "i": i, "op": op["op"], "seed": seed, "what": "sets"})
                 break
     return out
@@ -507,13 +552,22 @@ def check_batch(histories, repo, seed_plan, prop, want_ops):
     disagreements = []
     details = []
     for hi, (h, o, m) in enumerate(zip(histories, results, models)):
-        for d in compare(h, o, m, pristine):
+        for d in compare(h, o, m, pristine, prop):
             (details if d.get("detail") else disagreements).append((hi, d))
-    verdicts = evaluate(histories, results, pristine, code_ok)
+    fold = (prop == "C09")
+    verdicts = evaluate(histories, results, pristine, code_ok, fold)
     violations = []
     for hi, v in enumerate(verdicts):
         for (i, clause) in v:
             violations.append((hi, i, clause, {}))
+    # the property oracle on the run of EVERY other hash seed too (a write / read / edit that misbehaves only there)
+    for seed, d in by_seed.items():
+        if seed == 0:
+            continue
+        idxs = sorted(d)
+        for hi, v in zip(idxs, evaluate([histories[i] for i in idxs], [d[i] for i in idxs], pristine, code_ok, fold)):
+            for (i, clause) in v:
+                violations.append((hi, i, clause, {"hashseed": seed, "in_process_with_hashseed": seed}))
     # the same histories in other processes with other hash seeds
     for seed, d in by_seed.items():
         if seed == 0:
